@@ -37,7 +37,18 @@ def jobs(tier):
             add("gc-balanced-2", 7, 1, [(kind, 2)])
         add("gc-balanced-2", 7, 7, [("S", 2)], nvt=2)
         add("gc-balanced-2", 7, 4, [("S", 2)], has_indel=False)
+        # graphs where an edit can be detected LATE (the replacement is a live arc, a later nucleotide is not) and where the walk
+        # can sit on a self-loop before the edit (AA, GG in mixed-2)
+        add("mixed-2", 7, 0, [("S", 2)], has_indel=True)
+        add("mixed-2", 7, 0, [("S", 2)], has_indel=False)
     else:
+        add("mixed-2", 7, 10, [("S", 2)], has_indel=False)
+        for p in (2, 3):
+            for hi in (True, False):
+                add("mixed-2", 8, 0 if p == 2 else 10, [("S", p)], has_indel=hi)
+        add("no-homopolymer-2", 7, 1, [("S", 2)], has_indel=False)
+        add("mixed-2", 8, 0, [("D", 3)])
+        add("mixed-2", 8, 10, [("I", 2)])
         for kind in "SID":
             for p in (1, 2, 3):
                 add("ACG-1", 6, p % 3, [(kind, p)], nvt=0 if p % 2 else 2)
@@ -97,12 +108,6 @@ def body(e, L, cfg):
         chk = strs.mk(chk_codes)
     symnp.WHERE_POLICY = "concrete"
     try:
-        # history: an earlier repair on ANOTHER graph of the same order (caches keyed by shape / vertex must not leak)
-        try:
-            other = gen.induced(k, [True] * (4 ** k))
-            L.repair_dna(strs.K("ACGTTGCA"[:2 * k + 2]), symnp.array(other), 0, k, has_indel=True)
-        except Exception:
-            pass
         kind, val, reads = repair.run_repair(e, L, rows, c, start, k, vt_check=chk, has_indel=cfg["has_indel"], heap_size=1e9,
                                              budget=repair.budget_for(len(ccodes), k))
     finally:
@@ -112,7 +117,6 @@ def body(e, L, cfg):
         cx = repair.repair_cex(m, cfg["graph"], ccodes, start, k, chk_codes, cfg["has_indel"], 1e9)
         cx["orig"] = oracles.model_string(m, wcodes)
         cx["edits"] = len(edits)
-        cx["warmup"] = True
         return cx
     if kind != "ok":
         r, m = e.check()
